@@ -215,6 +215,8 @@ func (env *SpecEnv) resolveType(s string) (types.Type, error) {
 		return types.Typ[types.Bool], nil
 	case "string":
 		return types.Typ[types.String], nil
+	case "ref":
+		return types.Typ[types.UnsafePointer], nil
 	}
 	if t, ok := env.ft.e.qualifiedType(s); ok {
 		return t, nil
@@ -935,6 +937,12 @@ func (env *SpecEnv) call(x ECall) (SVal, error) {
 			}
 		}
 		return SVal{}, fmt.Errorf("cast needs (\"type\", value)")
+	case "indeferred":
+		// true iff the call being specified is executed as a deferred call (at function exit)
+		if env.fr != nil && env.fr.inDeferred > 0 {
+			return SVal{T: Term{"true", SBool}}, nil
+		}
+		return SVal{T: Term{"false", SBool}}, nil
 	case "panicking":
 		// true while a panic is propagating (deferred calls on the exceptional path)
 		return SVal{T: Term{ft.heapTerm(env.state(), panickingHeap), SBool}}, nil
